@@ -185,6 +185,27 @@ def run(F, rep):
             raise AnalysisBroken('%s no longer pushes on the history' % nm)
     rep.check(sig['fetchComponent'] == sig['fetchUnits'], 'C07.H1', 'siblings', None, 'fetchComponent does %s on the history, fetchUnits does %s' % (sig['fetchComponent'], sig['fetchUnits']), 'same operations: %s' % sig['fetchUnits'])
 
+    rep.rule('C07.H2', 'every function that pushes an epoch on a shared visit history while following an import pops it again on every path that is not an error exit (the history is shared with sibling references; '
+                       'a stale epoch makes a later sibling look like a cyclic import: valid models are refused by resolve/flatten/isResolved). Functions that only ever follow one linear chain are exempt by name')
+    import recursion as _rec
+    H2_EXEMPT = {
+        'Importer::ImporterImpl::checkComponentForCycles': 'follows one linear chain of component imports (tail recursion); hasImportIssues clears the history before every top-level item',
+        'Units::UnitsImpl::isBaseUnitWithHistory': 'follows one linear chain of units imports (tail recursion) on a history created by Units::isBaseUnit for this call only',
+    }
+    n_h2 = 0
+    for g in F.funcs.values():
+        if not g.file.endswith(('/importer.cpp', '/units.cpp', '/component.cpp', '/model.cpp', '/utilities.cpp')):
+            continue
+        for c, name, ok, detail in _rec.history_discipline(F, g):
+            n_h2 += 1
+            key = '%s|%s' % (g.short, render(c)[:30])
+            if not ok and g.short in H2_EXEMPT:
+                rep.exempt('C07.H2', key, H2_EXEMPT[g.short])
+                continue
+            rep.check(ok, 'C07.H2', key, g.where(c), '%s pushes on `%s` and some non-error path reaches the exit without popping it (%s)' % (g.short, name, detail), 'popped on every non-error path (%s)' % detail)
+    if n_h2 < 5:
+        raise AnalysisBroken('C07.H2: only %d history pushes found (7 confirmed)' % n_h2)
+
     # ------------------------------------------------------------------ V: every import below an import is visited
     rep.rule('C07.V1', 'the visit-everything walks over the component tree used by the importer (clearing imports, collecting imported components/units, renaming) descend into the children of every component, imported or not: '
                        'inside a loop over componentCount() the recursive call depends on nothing but the loop, and the loop itself is not inside a branch that excludes imported components')
